@@ -110,8 +110,10 @@ func c10Ref(c *c10Case) bool {
 			if !inBlock || c.Timeout != "h" {
 				return false
 			}
-			if len(c.Msgs) != 1 || c.Signer != "consensus-proposer" {
-				return false // the proposal rules: alone in its transaction, authored by the block's proposer
+			// ProcessProposal additionally applies the proposal rules: alone in its transaction and
+			// authored by the block's proposer. (In FinalizeBlock the observable is ante admission.)
+			if c.Mode == "process" && (len(c.Msgs) != 1 || c.Signer != "consensus-proposer") {
+				return false
 			}
 		case isRelayerNS(u):
 			if c.Signer != "relayer-proposer" {
@@ -223,10 +225,9 @@ func c10Eval(w *enga.World, c *c10Case) (admitted bool, foreignEffect string) {
 		if c.Signer == "consensus-proposer" && !hasEth {
 			want++ // its block message was executed first
 		}
+		// admitted by the ante chain <=> the signer's sequence was consumed (also when a message fails later)
 		admitted = had && seqAfter == want
-		if hasEth {
-			admitted = fr.TxResults[idx].Code == 0
-		}
+		_ = idx
 		// foreign messages: the state must equal the same block without the transaction
 		foreign := false
 		for _, u := range c.Msgs {
@@ -312,6 +313,9 @@ func runC10(r *mc.Run) {
 						&c10Case{Msgs: []string{foreign, allowed}, Signer: s, Timeout: th, Sig: "valid", Mode: md, Elected: el},
 						&c10Case{Msgs: []string{ethBlockURL, allowed}, Signer: s, Timeout: th, Sig: "valid", Mode: md, Elected: el},
 						&c10Case{Msgs: []string{allowed, ethBlockURL}, Signer: s, Timeout: th, Sig: "valid", Mode: md, Elected: el},
+						&c10Case{Msgs: []string{ethBlockURL, foreign}, Signer: s, Timeout: th, Sig: "valid", Mode: md, Elected: el},
+						&c10Case{Msgs: []string{ethBlockURL, "/cosmos.consensus.v1.MsgUpdateParams"}, Signer: s, Timeout: th, Sig: "valid", Mode: md, Elected: el},
+						&c10Case{Msgs: []string{ethBlockURL, ethBlockURL}, Signer: s, Timeout: th, Sig: "valid", Mode: md, Elected: el},
 						&c10Case{Msgs: []string{allowed, allowed2}, Signer: "relayer-proposer", Signer2: "other-relayer-member", Timeout: th, Sig: "valid", Mode: md, Elected: el},
 					)
 				}
